@@ -28,7 +28,7 @@ Inductive op :=
 | OReplS (s : list Z) (repl : list Z)         (* s.replace(r, repl) *)
 | OReplF (s : list Z) (ret : list Z)          (* s.replace(r, logging function returning ret + "<n>") *)
 | OReplStr (s pat : list Z) (repl : rv)       (* s.replace(pat, text | logging function), pat a string *)
-| OProps                                      (* r.source, r.global, r.ignoreCase, r.multiline, String(r) *)
+| OProps                                      (* r.source, r.global, r.ignoreCase, r.multiline, String(r), source of the next literal on the line *)
   (* a pattern argument that is not a RegExp object.  match and search build
      new RegExp(ToString(arg)) (15.5.4.10, 15.5.4.12): OMatchArg / OSearchArg pass the
      source of the tree under test (as a string, through toString of an object, as a
@@ -196,7 +196,11 @@ Definition do_op (first : robj) (o : op) (ob : robj) (leg : list ov) : option (l
       | None => None
       | Some a => Some (a, lv, leg)
       end
-  | OProps => Some ([OS pat; OB g; OB fi; OB fm; OS ([47] ++ pat ++ [47] ++ flag_text g fi fm)], lv, leg)
+  | OProps =>
+      (* the last item is the source of a second literal, /\]\/[/]/, written on the same
+         line right after the first one: the first literal must end where 7.8.5 says *)
+      Some ([OS pat; OB g; OB fi; OB fm; OS ([47] ++ pat ++ [47] ++ flag_text g fi fm);
+             OS [92; 93; 92; 47; 91; 47; 93]], lv, leg)
   | OMatchArg s => match fresh_ex r s with None => None | Some (m, _) => Some (exec_obs s m, lv, leg) end
   | OMatchLit s txt => match fresh_ex (lit_tree txt) s with None => None | Some (m, _) => Some (exec_obs s m, lv, leg) end
   | OSearchArg s => same (if spec_side then search_spec (eng r false false) 0 s else search_model (eng r false false) dv 0 s)
